@@ -97,7 +97,19 @@ impl reactor::Handler for Stub {
 const VIS: [&str; 4] = ["public", "private[]", "private[req]", "private[other]"];
 const POLICIES: [&str; 5] = ["default-block/no-entry", "default-block/allow(all)", "default-block/allow(followed)", "default-allow/block-entry", "default-allow/no-entry"];
 const REQUESTERS: [&str; 3] = ["delegate", "allow-listed-key", "stranger"];
-const HEADERS: [&str; 7] = ["/rad:<rid>", "/<rid-without-urn>", "/rad:<rid>.git", "rad:<rid> (no slash)", "/rad:<rid> + host + version=2", "/garbage", "/rad:<unknown-rid>"];
+const HEADERS: [&str; 10] = [
+    "/rad:<rid>",
+    "/<rid-without-urn>",
+    "/rad:<rid>.git",
+    "rad:<rid> (no slash)",
+    "/rad:<rid> + host + version=2",
+    "/garbage",
+    "/rad:<unknown-rid>",
+    // Paths with several components: one names the public repository, another the requested one.
+    "/<public-rid>/../<rid> + version=2",
+    "/<rid>/../<public-rid> + version=2",
+    "//<rid> + version=2",
+];
 
 struct Fixture {
     _tmp: tempfile::TempDir,
@@ -181,7 +193,7 @@ fn policies(fx: &Fixture, p: usize) -> policy::Config<policy::store::Read> {
     policy::Config::new(default, policy::Store::reader(&fx.policy_dbs[p]).expect("policy reader"))
 }
 
-fn header(kind: usize, rid: &RepoId) -> Vec<u8> {
+fn header(kind: usize, rid: &RepoId, public: &RepoId) -> Vec<u8> {
     let body = match kind {
         0 => format!("git-upload-pack /{rid}\0"),
         1 => format!("git-upload-pack /{}\0", rid.canonical()),
@@ -189,6 +201,10 @@ fn header(kind: usize, rid: &RepoId) -> Vec<u8> {
         3 => format!("git-upload-pack {rid}\0"),
         4 => format!("git-upload-pack /{rid}\0host=seed.example:8776\0\0version=2\0"),
         5 => "git-upload-pack /garbage\0".to_string(),
+        // (canonical ids: these are also the directory names in storage)
+        7 => format!("git-upload-pack /{}/../{}\0host=seed.example:8776\0\0version=2\0", public.canonical(), rid.canonical()),
+        8 => format!("git-upload-pack /{}/../{}\0host=seed.example:8776\0\0version=2\0", rid.canonical(), public.canonical()),
+        9 => format!("git-upload-pack //{}\0host=seed.example:8776\0\0version=2\0", rid.canonical()),
         _ => format!("git-upload-pack /{}\0", RepoId::from(radicle::git::Oid::try_from([0x6b; 20].as_slice()).unwrap())),
     };
     let mut v = format!("{:04x}", body.len() + 4).into_bytes();
@@ -220,7 +236,7 @@ fn describe(it: &Item) -> serde_json::Value {
 fn eval(fx: &Fixture, it: &Item) -> ItemOut {
     let rid = if it.vis < 4 { fx.rids[it.vis] } else { fx.absent };
     let remote = [fx.owner, fx.req, fx.stranger][it.requester];
-    let hdr = header(it.header, &rid);
+    let hdr = header(it.header, &rid, &fx.rids[0]);
     // Does the header name the repository at all (per the documented request format)?
     let names_repo = matches!(it.header, 0 | 1 | 2 | 4);
     let visible = match it.vis {
@@ -299,7 +315,7 @@ fn main() {
     let samples = sweep::sample_indexes(n).into_iter().map(|i| describe(&decode(&space, i))).collect();
     let cov = st.coverage(
         "full product seeding policy {default-block/no entry, allow(all), allow(followed), default-allow/block entry, default-allow/no entry} × visibility {public, private[], private[requester], private[other], repository absent} \
-         × requester {delegate, allow-listed key, stranger} × request header {canonical rad: URN, id without URN prefix, trailing .git, no leading slash, with host and protocol extras, garbage path, unknown rid}; \
+         × requester {delegate, allow-listed key, stranger} × request header {canonical rad: URN, id without URN prefix, trailing .git, no leading slash, with host and protocol extras, garbage path, unknown rid, /<public rid>/../<rid>, /<rid>/../<public rid>, //<rid>}; \
          every item is non-trivial (distinct configuration); both tiers enumerate the full product",
         samples,
     );
